@@ -24,7 +24,9 @@ CONSTANTS Configs,    \* set of pool configurations to explore (records, see bel
           Procs,      \* concurrent callers
           Keys,       \* request keys (client IPs / header values), abstract
           MaxSel,     \* bound on selections   (model checking only)
-          MaxGen      \* bound on generations  (model checking only)
+          MaxGen,     \* bound on generations  (model checking only)
+          AgeBits,    \* a balancer may have served k0 = 2^b - d selections before it is observed:
+          AgeD        \*   b \in AgeBits, d \in AgeD   (model checking / generation only)
 
 (* configuration: [policy  : "roundRobin" | "random" | "weightedRandom" | "ipHash" | "headerHash" |
                              "any"   (policy left out: the property promises membership only),
@@ -141,6 +143,54 @@ Ret(p) ==
     /\ last' = [a |-> "ret", p |-> p, r |-> res[p], g |-> sg[p]]
     /\ UNCHANGED <<cfg, gen, lst, cnt, sticky, key, sg, res, nsel>>
 
+(* ---- a selection whose two points are far apart ---- *)
+(* Hold = Inv;Snap in one step: a request has loaded the pool's balancer and has not chosen yet   *)
+(* (doHandle is between sp.LoadBalancer() and .ChooseServer(req)).  Any number of replacements    *)
+(* and of other callers' selections may follow before the request chooses.                         *)
+Hold(p, k) ==
+    /\ pc[p] = "idle" /\ nsel + Cardinality({q \in Procs : pc[q] \in {"snap", "pick"}}) < MaxSel
+    /\ pc' = [pc EXCEPT ![p] = "pick"] /\ key' = [key EXCEPT ![p] = k] /\ sg' = [sg EXCEPT ![p] = gen]
+    /\ last' = [a |-> "hold", p |-> p, k |-> k]
+    /\ UNCHANGED <<cfg, gen, lst, cnt, sticky, res, nsel>>
+
+(* The held request chooses and returns (Pick;Ret).  "A server of the pool's current list": of a   *)
+(* list that was current at some instant of the call, i.e. of a generation gg between the one      *)
+(* loaded and the one current now - and it fails for lack of a server only if that list is empty.  *)
+(* (The code chooses in the balancer it loaded, gg = sg[p]; a pool that looked the list up again    *)
+(* when choosing would keep the property as well.)                                                  *)
+SpanGens(p, r) == {gg \in sg[p]..gen : r \in Allowed(gg, key[p])}
+Least(S) == CHOOSE x \in S : \A y \in S : x <= y
+
+HPickWith(p, r) ==
+    /\ pc[p] = "pick" /\ SpanGens(p, r) # {}
+    /\ LET gg == Least(SpanGens(p, r)) IN
+         /\ Effect(gg, key[p], r)
+         /\ sg' = [sg EXCEPT ![p] = gg]
+         /\ last' = [a |-> "hpick", p |-> p, r |-> r, g |-> gg]
+    /\ res' = [res EXCEPT ![p] = r] /\ pc' = [pc EXCEPT ![p] = "idle"]
+    /\ UNCHANGED <<cfg, gen, lst, key>>
+
+HPick(p) == \E r \in UNION {Allowed(gg, key[p]) : gg \in sg[p]..gen} : HPickWith(p, r)
+
+(* ---- a balancer that has served selections before it is observed ---- *)
+(* "After ANY number k of roundRobin selections": the clause also speaks of the selections that    *)
+(* follow k0 earlier ones, for k0 as large as a long-lived pool reaches (2^32 is seven weeks at    *)
+(* 1000 requests per second).  Age(b, d, E): the current generation's balancer has already made    *)
+(* k0 = 2^b - d selections, fairly: every server floor(k0/n) times and the servers of E once more, *)
+(* Cardinality(E) = k0 mod n.  The contract counts modulo whole rounds (subtracting floor(k0/n)    *)
+(* from every count changes neither RRFair nor the set of least-chosen servers), so cnt becomes    *)
+(* the indicator of E.  Which servers are in E is the balancer's business (its rotation order).     *)
+RECURSIVE PowMod2(_, _)
+PowMod2(b, n) == IF b = 0 THEN 1 % n ELSE (2 * PowMod2(b - 1, n)) % n
+K0Mod(b, d, n) == (PowMod2(b, n) + n * d - d) % n          \* (2^b - d) mod n, for d <= 2^b
+
+Age(b, d, E) ==
+    /\ cfg.policy = "roundRobin" /\ lst[gen] # {} /\ cnt[gen] = Zero(lst[gen])
+    /\ E \subseteq Ids(lst[gen]) /\ Cardinality(E) = K0Mod(b, d, Cardinality(lst[gen]))
+    /\ cnt' = [cnt EXCEPT ![gen] = [i \in Ids(lst[gen]) |-> IF i \in E THEN 1 ELSE 0]]
+    /\ last' = [a |-> "age", b |-> b, d |-> d]
+    /\ UNCHANGED <<cfg, gen, lst, sticky, pc, key, sg, res, nsel>>
+
 (* ---- the same selection made by a single caller: one atomic step ---- *)
 ChooseSeq(k) ==
     /\ nsel < MaxSel /\ \A p \in Procs : pc[p] = "idle"
@@ -185,13 +235,29 @@ Batch(P) ==
     /\ last' = [a |-> "batch"]
     /\ UNCHANGED <<cfg, gen, lst, pc, key, sg, res>>
 
+Ages == \E b \in AgeBits, d \in AgeD : \E E \in SUBSET Ids(lst[gen]) : Age(b, d, E)
+
 Next ==
     \/ \E I \in InstSets : Replace(I)
     \/ \E p \in Procs : (\E k \in Keys : Inv(p, k)) \/ Snap(p) \/ Pick(p) \/ Ret(p)
+    \/ Ages
 
 SeqNext ==
     \/ \E I \in InstSets : Replace(I)
     \/ \E k \in Keys : ChooseSeq(k)
+
+(* sequential requests, with up to Cardinality(Procs) requests held between load and choice *)
+ChooseNow(k) ==
+    /\ nsel + Cardinality({q \in Procs : pc[q] \in {"snap", "pick"}}) < MaxSel
+    /\ \E r \in Allowed(gen, k) :
+          /\ Effect(gen, k, r)
+          /\ last' = [a |-> "ch", k |-> k, r |-> r]
+    /\ UNCHANGED <<cfg, gen, lst, pc, key, sg, res>>
+
+HeldNext ==
+    \/ \E I \in InstSets : Replace(I)
+    \/ \E k \in Keys : ChooseNow(k)
+    \/ \E p \in Procs : (\E k \in Keys : Hold(p, k)) \/ HPick(p)
 
 Spec == Init /\ [][Next]_vars
 SeqSpec == Init /\ [][SeqNext]_vars
@@ -223,13 +289,21 @@ Member ==
 NilIffEmpty ==
     \A p \in Procs : pc[p] = "done" => ((res[p] = NIL) <=> (lst[sg[p]] = {}))
 
+(* the same two clauses for a request held between the load of the balancer and its choice, whatever *)
+(* happened to the list in between (last.g: the generation the choice is accounted to)              *)
+HeldOK ==
+    last.a = "hpick" =>
+        /\ last.g \in 1..gen
+        /\ (last.r = NIL) <=> (lst[last.g] = {})
+        /\ last.r # NIL => last.r \in Ids(lst[last.g])
+
 (* "ipHash and headerHash send equal keys to the same server while the list is unchanged" *)
 Sticky ==
     [][last'.a # "init" =>      \* ("init": a trace specification starting the next recorded trace)
          \A gg \in 1..gen, k \in Keys : sticky[gg][k] # NONE => sticky'[gg][k] = sticky[gg][k]]_vars
 
 StickyPick ==
-    [][\A p \in Procs : (last'.a = "pick" /\ last'.p = p /\ cfg.policy \in {"ipHash", "headerHash"}
+    [][\A p \in Procs : (last'.a \in {"pick", "hpick"} /\ last'.p = p /\ cfg.policy \in {"ipHash", "headerHash"}
                           /\ sticky[sg'[p]][key[p]] # NONE) => res'[p] = sticky[sg'[p]][key[p]]]_vars
 
 (* "weightedRandom never picks a zero-weight server when some weight is positive" *)
